@@ -116,6 +116,8 @@ Failed(props0, sig, ign, km, cached, S, e) ==
   IN
   IF ~bd.ok THEN   \* an invalid call must fail exactly as the undecorated function does
        Chk(props, "ORACLE", "ORACLE.InvalidCallAccepted", ~e.bind.ok)
+       \* ... also when a VALID call has left a result under the key that the decorator computes for the invalid one
+  \cup Chk(props, "C01", "C01.InvalidCallFails", cached => e.exc # "none")
   ELSE
        Chk(props, "ORACLE", "ORACLE.PyBind", e.exc = "none" =>
              FromLog(e.bind) = bd)
